@@ -214,6 +214,8 @@ RECURSIVE NumMaxVecs(_)
 NumMaxVecs(vs) == IF vs = <<>> THEN 0 ELSE Max2(NumMaxSeq(Head(vs)), NumMaxVecs(Tail(vs)))
 \* squares and three-term sums of squares of the state's entries fit TLC's 32-bit integers
 SqSafe(s) == NumMaxVecs(StateVecs(s)) <= 16384 /\ DenState(s) <= 16384
+\* the Fejer metrics involve the NEXT dual iterate (denominator up to 4 x finer) and weighted sums
+FejerSafe(s) == NumMaxVecs(StateVecs(s)) <= 1024 /\ DenState(s) <= 1024
 
 (* ------------------------------ C12 ------------------------------------ *)
 Sol(I) == I.sol
@@ -347,7 +349,7 @@ FejerQty(I, s, w) ==
     [] I.solver = "fb"   -> PDMetric(I, RSub(s.x, w[1]), RSub(s.v[1], w[2][1]))
     [] I.solver = "pg"   -> RNorm2(RSub(s.x, w[1]))
 Fejer ==
-  [][(Stepped /\ inst.solver \in {"pdhg", "fb", "pg"} /\ Admissible(inst)
+  [][(Stepped /\ FejerSafe(ref) /\ FejerSafe(ref') /\ inst.solver \in {"pdhg", "fb", "pg"} /\ Admissible(inst)
         /\ (inst.solver = "fb" => Len(inst.Ls) = 1)) =>
        \A w \in KKTSet(inst) : SLe(FejerQty(inst, ref', w), FejerQty(inst, ref, w))]_vars
 =============================================================================
